@@ -8,14 +8,14 @@ import (
 	"strings"
 	"time"
 
+	"github.com/bradfitz/gomemcache/memcache"
 	"github.com/sassoftware/relic/v8/config"
 	"github.com/sassoftware/relic/v8/internal/signinit"
 	"github.com/sassoftware/relic/v8/lib/pkcs9"
-	"github.com/sassoftware/relic/v8/lib/pkcs9/ratelimit"
-	"github.com/sassoftware/relic/v8/lib/pkcs9/timestampcache"
-	"github.com/sassoftware/relic/v8/lib/pkcs9/tsclient"
+
 	"github.com/sassoftware/relic/v8/server"
 	"github.com/sassoftware/relic/v8/zz_verif/core"
+	"github.com/sassoftware/relic/v8/zz_verif/simhook"
 	"github.com/sassoftware/relic/v8/zz_verif/world"
 )
 
@@ -31,21 +31,20 @@ func installTimestamper(tsa http.RoundTripper, mc *world.Memcached) error {
 	if err != nil {
 		return err
 	}
-	var inner pkcs9.Timestamper = t
-	if in, client := timestampcache.ZZInner(inner); in != nil {
-		if mc != nil {
-			client.DialContext = mc.DialContext
+	if t == nil {
+		return fmt.Errorf("GetTimestamper returned neither a timestamper nor an error")
+	}
+	// the timestamp client's own transport reaches the simulated network
+	// through the net/http seam; the memcached client is found inside whatever
+	// wrappers relic puts around it (no unexported name is mentioned here)
+	simhook.SetHTTPRoundTrip(tsa.RoundTrip)
+	if mc != nil {
+		client, ok := core.FindByType[*memcache.Client](t)
+		if !ok {
+			return fmt.Errorf("no memcached client inside the timestamper (%T) although a cache is configured", t)
 		}
-		inner = in
+		client.DialContext = mc.DialContext
 	}
-	if in := ratelimit.ZZInner(inner); in != nil {
-		inner = in
-	}
-	hc := tsclient.ZZClient(inner)
-	if hc == nil {
-		return fmt.Errorf("cannot reach the timestamp client's http.Client (%T)", inner)
-	}
-	hc.Transport = tsa
 	return nil
 }
 
@@ -128,6 +127,7 @@ func c10Sign(r *core.Run) {
 			return
 		}
 		defer signinit.ZZResetTimestamper()
+		defer simhook.SetHTTPRoundTrip(nil)
 		srv, err := server.New(cfg)
 		if err != nil {
 			r.Notes["internal_error"] = "server.New: " + err.Error()
